@@ -13,6 +13,8 @@ func SShapes() *Supergraph {
 			{Name: "cells", Type: "[Cell!]!"},
 			{Name: "grid", Type: "[[Cell]]"},
 			{Name: "matrix", Type: "[[Cell!]!]!"},
+			// nullable inner lists of non-null items
+			{Name: "rows", Type: "[[Cell!]]"},
 		}},
 		{Name: "Cell", Kind: "object", Keys: []Key{{Fields: "id"}}, Fields: []Field{
 			{Name: "id", Type: "ID!", Key: true},
@@ -24,6 +26,10 @@ func SShapes() *Supergraph {
 			{Name: "open", Type: "Boolean"},
 			{Name: "ratio", Type: "Float"},
 			{Name: "meta", Type: "J"},
+			// a list of lists of NON-NULL leaves (one inner list holds a null) and a
+			// non-null leaf that another subgraph may own
+			{Name: "nums", Type: "[[Int!]]"},
+			{Name: "code", Type: "String!"},
 		}},
 		{Name: "Owner", Kind: "object", Keys: []Key{{Fields: "id"}}, Fields: []Field{
 			{Name: "id", Type: "ID!", Key: true},
@@ -37,9 +43,9 @@ func SShapes() *Supergraph {
 func SShapesUniverse(s *Supergraph) *Universe {
 	o1 := Obj{"__typename": "Owner", "id": "o1", "name": "Olga", "active": true}
 	o2 := Obj{"__typename": "Owner", "id": "o2", "name": nil, "active": false}
-	c1 := Obj{"__typename": "Cell", "id": "c1", "secret": "s-one", "tags": []any{[]any{"a", nil}, nil, []any{}}, "owner": o1, "open": true, "ratio": 0.5, "meta": map[string]any{"k": []any{1, "x"}}}
-	c2 := Obj{"__typename": "Cell", "id": "c2", "secret": nil, "tags": nil, "owner": o2, "open": nil, "ratio": nil, "meta": nil}
-	c3 := Obj{"__typename": "Cell", "id": "c3", "secret": "s-three", "tags": []any{[]any{"z"}}, "owner": nil, "open": false, "ratio": 3, "meta": "plain"}
+	c1 := Obj{"__typename": "Cell", "id": "c1", "secret": "s-one", "tags": []any{[]any{"a", nil}, nil, []any{}}, "owner": o1, "open": true, "ratio": 0.5, "meta": map[string]any{"k": []any{1, "x"}}, "nums": []any{[]any{1, 2}, []any{3, nil}, []any{4}}, "code": "k1"}
+	c2 := Obj{"__typename": "Cell", "id": "c2", "secret": nil, "tags": nil, "owner": o2, "open": nil, "ratio": nil, "meta": nil, "nums": nil, "code": "k2"}
+	c3 := Obj{"__typename": "Cell", "id": "c3", "secret": "s-three", "tags": []any{[]any{"z"}}, "owner": nil, "open": false, "ratio": 3, "meta": "plain", "nums": []any{nil, []any{7}}, "code": "k3"}
 	c1["near"] = []any{[]any{c2, nil}, []any{c3}}
 	c2["near"] = nil
 	c3["near"] = []any{nil, []any{}, []any{c1}}
@@ -50,5 +56,6 @@ func SShapesUniverse(s *Supergraph) *Universe {
 			"cells":  []any{c1, c2, c3},
 			"grid":   []any{[]any{c1, nil, c2}, nil, []any{}, []any{c3}},
 			"matrix": []any{[]any{c1, c3}, []any{c2}},
+			"rows":   []any{[]any{c1, c2}, nil, []any{c3}},
 		}}}
 }
